@@ -206,3 +206,63 @@ def _json_lemmas(e, n):
 
 
 LEMMA_HOOKS.append(_json_lemmas)
+
+
+# ---- 6.1.2 CoerceVariableValues, one variable definition at a time
+# d: ExecutableVariableDefinition object; raw: the `variables` JSON object; ic / lc: the input / literal coercer closures bound to it
+K_VARCOERCER = 'tartiflette/coercers/variables.py::variable_coercer'
+InBeh = z3.Function('InBeh', V, Beh)               # behaviour denoted by a variable's input coercer closure (positional partial over get_input_coercer(T))
+VDef_ok = z3.Function('VDef_ok', V, V, BoolS)       # (literal coercer, definition): coercing the default value literal succeeds
+VDef_val = z3.Function('VDef_val', V, V, V)
+
+
+def var_has(d, raw):
+    return lookup(V.ditems(raw), attr0(d, 'name')) != V.Missing
+
+
+def var_value(d, raw):
+    return lookup(V.ditems(raw), attr0(d, 'name'))
+
+
+def VarTag(d, raw, ic, lc):
+    """0: the variable gets a value; 1: the request must be refused; 2: the variable stays absent"""
+    has, value = var_has(d, raw), var_value(d, raw)
+    default = attr0(d, 'default_value')
+    nonnull = is_non_null_type(attr0(d, 'graphql_type'))
+    return z3.If(z3.And(z3.Not(has), default != V.Undef), z3.If(z3.And(VDef_ok(lc, d), VDef_val(lc, d) != V.Undef), 0, 1),
+           z3.If(z3.And(z3.Or(z3.Not(has), value == V.None_), nonnull), 1,
+           z3.If(has, z3.If(Sem_ok(InBeh(ic), value), 0, 1), 2)))
+
+
+def VarVal(d, raw, ic, lc):
+    has, value = var_has(d, raw), var_value(d, raw)
+    return z3.If(z3.And(z3.Not(has), attr0(d, 'default_value') != V.Undef), VDef_val(lc, d), Sem_val(InBeh(ic), value))
+
+
+def def_ic(d):
+    return lookup(V.fbound(attr0(d, 'coercer')), S('input_coercer'))
+
+
+def def_lc(d):
+    return lookup(V.fbound(attr0(d, 'coercer')), S('literal_coercer'))
+
+
+NoBad = z3.RecFunction('NoBadVarUpTo', VL, V, IntS, BoolS)        # no definition with index < k refuses the request
+CountBad = z3.RecFunction('CountBadVarUpTo', VL, V, IntS, IntS)
+VarMap = z3.RecFunction('VarMapUpTo', VL, V, IntS, VL)            # the coerced variable map built from the first k definitions
+_defs = z3.Const('defs_', VL)
+_raw = z3.Const('raw_', V)
+
+
+def _tag_at(defs, raw, k):
+    d = nth(defs, k)
+    return VarTag(d, raw, def_ic(d), def_lc(d))
+
+
+z3.RecAddDefinition(NoBad, [_defs, _raw, _k], z3.If(_k <= 0, True, z3.And(NoBad(_defs, _raw, _k - 1), _tag_at(_defs, _raw, _k - 1) != 1)))
+z3.RecAddDefinition(CountBad, [_defs, _raw, _k], z3.If(_k <= 0, 0, CountBad(_defs, _raw, _k - 1) + z3.If(_tag_at(_defs, _raw, _k - 1) == 1, 1, 0)))
+z3.RecAddDefinition(VarMap, [_defs, _raw, _k], z3.If(_k <= 0, VL.nil,
+    z3.If(_tag_at(_defs, _raw, _k - 1) == 0,
+          assoc_set(VarMap(_defs, _raw, _k - 1), attr0(nth(_defs, _k - 1), 'name'),
+                    VarVal(nth(_defs, _k - 1), _raw, def_ic(nth(_defs, _k - 1)), def_lc(nth(_defs, _k - 1)))),
+          VarMap(_defs, _raw, _k - 1))))
